@@ -5,7 +5,7 @@ import numpy as np
 import impl, proto
 from pystog import StoG
 from gen import rng_for
-from .common import tolist
+from .common import tolist, exceeds
 
 LEAN = "PystogVerif.Props.C18"
 ENTRIES = []
@@ -133,7 +133,7 @@ def evaluate(case):
                     st2.read_dataset({"Filename": os.path.join(d, name), "ReciprocalFunction": "S(Q)"})
                     st2.merge_data()
                     q2, s2 = st2.q_master[st2.sq_title], st2.sq_master[st2.sq_title]
-                    if len(q2) != len(x) or np.abs(q2 - x).max() > 1e-12 or np.abs(s2 - y).max() > 5e-12:
+                    if len(q2) != len(x) or exceeds(np.abs(q2 - x).max(), 1e-12) or exceeds(np.abs(s2 - y).max(), 5e-12):
                         fails.append("feeding the written S(Q) back in does not reproduce the merged grid and values")
                 except Exception as ex:  # noqa: BLE001
                     fails.append(f"feeding a written {len(x)}-row S(Q) file back in as a dataset raises {type(ex).__name__}: {str(ex)[:80]}")
